@@ -3,7 +3,7 @@
 # /verif/seeded/RESULTS.tsv (id, exit status, violations, first signatures).  /repo is restored after each.
 tier="${1:-quick}"; shift
 cd /verif || exit 2
-ids="$*"; [ -n "$ids" ] || ids=$(ls seeded | grep -E '^C[0-9]+-[AB]$')
+ids="$*"; [ -n "$ids" ] || ids=$(ls seeded | grep -E '^C[0-9]+-[A-Z]$')
 out=/verif/seeded/RESULTS.tsv
 [ -n "$*" ] || : > "$out"
 for id in $ids; do
